@@ -1,5 +1,6 @@
 import AtreeProofs.Props.TransElemInline
 import AtreeProofs.Props.TransElemSlab
+import AtreeProofs.Trans.MapElemOn
 /-
   ELEMENT layer of the maps: the generated DYNAMIC DISPATCH of the closed interface `element` (`element_Get`, `element_Set`,
   `element_Remove` of `AtreeModel/Gen/TransMapElem.lean`) equals the model's `MElemF.get / set / remove`
@@ -36,6 +37,50 @@ def mei_nested : MElemF α → Option α
   | .inl g => some g
   | .ext _ _ s => some s.elems
 
+/-- `element_Get_eq_model` over the relativised environment `EnvBOn` -/
+theorem element_Get_eq_model_on {Qg Qs Qr : α → Nat → Ctx → Prop} {Qn : Nat → SElem → Prop}
+    (hE : EnvBOn o cfg k v env Qg Qs Qr Qn) (el : MElemF α) (c : Ctx) (level : Nat) (hk : UInt64)
+    (hl : level + 1 < 2^64) (hL : cfg.L < 2^64)
+    (hret : ∀ id sz s, el = .ext id sz s →
+      env.SlabStorage_Retrieve c id = (.dataSlab (mei_cGroupSlab s), true, none, c))
+    (hget : ∀ (d : MapDataSlab α X) c dg lvl hk w,
+      env.MapSlab_Get (.dataSlab d) c dg lvl hk w = env.elements_Get d.elements c dg lvl hk w)
+    (hQ : ∀ g, mei_nested el = some g → Qg g (level + 1) c) :
+    element_Get env (mei_cEl el) c k (u64 level) hk (.key k) = some (mei_rGet c (el.get o cfg level k)) := by
+  cases el with
+  | single x =>
+    simp only [mei_cEl, element_Get, singleElement_Get_eq_model_on o cfg k v env hE x c k (u64 level) hk level]
+  | inl g =>
+    simp only [mei_cEl, element_Get, inlineCollisionGroup_Get_eq_model_on o cfg k v env hE g c level hk hl hL (hQ g rfl)]
+  | ext id sz s =>
+    simp only [mei_cEl, element_Get,
+      externalCollisionGroup_Get_eq_model_on o cfg k v env hE id sz s c level hk hl hL (hret id sz s rfl) hget
+        (hQ s.elems rfl)]
+
+/-- `element_Remove_eq_model` over the relativised environment `EnvBOn` -/
+theorem element_Remove_eq_model_on {Qg Qs Qr : α → Nat → Ctx → Prop} {Qn : Nat → SElem → Prop}
+    (hE : EnvBOn o cfg k v env Qg Qs Qr Qn) (el : MElemF α) (c : Ctx) (level : Nat) (hk : UInt64)
+    (hl : level + 1 < 2^64) (hL : cfg.L < 2^64)
+    (hcnt : ∀ g, mei_nested el = some g → ∀ rk rv g' c', o.remove cfg g (level + 1) k c = .ok (rk, rv, g', c') →
+      o.count g' < 2^32)
+    (hret : ∀ id sz s, el = .ext id sz s →
+      env.SlabStorage_Retrieve c id = (.dataSlab (mei_cGroupSlab s), true, none, c))
+    (hQ : ∀ g, mei_nested el = some g → Qr g (level + 1) c) :
+    (element_Remove env (mei_cEl el) c k (u64 level) hk (.key k)).map
+        (fun r => (r.1, r.2.1, r.2.2.1, r.2.2.2.1, r.2.2.2.2.2)) =
+      some (mei_rERemove c (el.remove o cfg level k c)) := by
+  cases el with
+  | single x =>
+    simp only [mei_cEl, element_Remove, singleElement_Remove_eq_model_on o cfg k v env hE x c k (u64 level) hk level,
+      Option.map_some]
+  | inl g =>
+    simp only [mei_cEl, element_Remove,
+      inlineCollisionGroup_Remove_eq_model_on o cfg k v env hE g c level hk hl hL (hcnt g rfl) (hQ g rfl), Option.map_some]
+  | ext id sz s =>
+    simp only [mei_cEl, element_Remove,
+      externalCollisionGroup_Remove_eq_model_on o cfg k v env hE id sz s c level hk hl hL (hcnt s.elems rfl)
+        (hret id sz s rfl) (hQ s.elems rfl), Option.map_some]
+
 /-- `element.Remove` (dispatch) = `MElemF.remove`, for every element: Go results and storage state (the dispatcher's extra
     component, the receiver's new state, is left out: for a group it is in `inlineCollisionGroup_Remove_eq_model`) -/
 theorem element_Remove_eq_model (hE : EnvB o cfg k v env) (el : MElemF α) (c : Ctx) (level : Nat) (hk : UInt64)
@@ -46,18 +91,46 @@ theorem element_Remove_eq_model (hE : EnvB o cfg k v env) (el : MElemF α) (c : 
       env.SlabStorage_Retrieve c id = (.dataSlab (mei_cGroupSlab s), true, none, c)) :
     (element_Remove env (mei_cEl el) c k (u64 level) hk (.key k)).map
         (fun r => (r.1, r.2.1, r.2.2.1, r.2.2.2.1, r.2.2.2.2.2)) =
-      some (mei_rERemove c (el.remove o cfg level k c)) := by
+      some (mei_rERemove c (el.remove o cfg level k c)) :=
+  element_Remove_eq_model_on o cfg k v env hE.toOn el c level hk hl hL hcnt hret (fun _ _ => trivial)
+
+/-- `element_Set_eq_model` over the relativised environment `EnvBOn` -/
+theorem element_Set_eq_model_on {Qg Qs Qr : α → Nat → Ctx → Prop} {Qn : Nat → SElem → Prop}
+    (hE : EnvBOn o cfg k v env Qg Qs Qr Qn) (el : MElemF α) (c : Ctx) (level : Nat) (hk : UInt64) (b : Unit)
+    (hl : level + 1 < 2^64) (hL : cfg.L < 2^64) (hT : maxInlineMapElem cfg.T < 2^32)
+    (hsz : ∀ g, (mei_nested el = some g ∨ ∃ x, el = .single x ∧ o.newWith cfg (level + 1) x = .ok g) →
+      ∀ ks old g' c', o.set cfg g (level + 1) k v c = .ok (ks, old, g', c') → o.size g' + 2 < 2^32)
+    (hsingle : ∀ x, el = .single x → x.key.size < 2^32 ∧ x.size < 2^32 ∧
+      (x.key.same k = false → ∃ g, o.newWith cfg (level + 1) x = .ok g))
+    (hret : ∀ id sz s, el = .ext id sz s → s.hdr.id.addr = cfg.addr ∧
+      env.SlabStorage_Retrieve c id = (.dataSlab (mei_cGroupSlab s), true, none, c))
+    (hset : ∀ (d : MapDataSlab α X) c b dg lvl hk w w', env.MapSlab_Set (.dataSlab d) c b dg lvl hk w w' =
+      match MapDataSlab_Set env d c b dg lvl hk w w' with
+      | some r => (r.1, r.2.1, r.2.2.1, .dataSlab r.2.2.2.1, r.2.2.2.2)
+      | none => (none, none, none, .dataSlab d, c))
+    (hQ : ∀ g, (mei_nested el = some g ∨ ∃ x, el = .single x ∧ o.newWith cfg (level + 1) x = .ok g) → Qs g (level + 1) c)
+    (hQn : ∀ x, el = .single x → Qn (level + 1) x) :
+    (element_Set env (mei_cEl el) c cfg.addr b k (u64 level) hk (.key k) (.val v)).map
+        (fun r => (r.1, r.2.1, r.2.2.1, r.2.2.2.1, r.2.2.2.2.2)) =
+      some (mei_rESet c (el.set o cfg level k v c)) := by
   cases el with
   | single x =>
-    simp only [mei_cEl, element_Remove, singleElement_Remove_eq_model o cfg k v env hE x c k (u64 level) hk level,
-      Option.map_some]
+    obtain ⟨h1, h2, h3⟩ := hsingle x rfl
+    simp only [mei_cEl, element_Set,
+      singleElement_Set_eq_model_on o cfg k v env hE x c level hk b hl hL hT
+        (fun g ks old g' c' hg => hsz g (Or.inr ⟨x, rfl, hg⟩) ks old g' c') h1 h2 h3
+        (hQn x rfl) (fun g hg => hQ g (Or.inr ⟨x, rfl, hg⟩)), Option.map_some]
   | inl g =>
-    simp only [mei_cEl, element_Remove,
-      inlineCollisionGroup_Remove_eq_model o cfg k v env hE g c level hk hl hL (hcnt g rfl), Option.map_some]
+    simp only [mei_cEl, element_Set,
+      inlineCollisionGroup_Set_eq_model_on o cfg k v env hE g c level hk b hl hL hT (hsz g (Or.inl rfl))
+        (hQ g (Or.inl rfl)),
+      Option.map_some, MElemF.set]
   | ext id sz s =>
-    simp only [mei_cEl, element_Remove,
-      externalCollisionGroup_Remove_eq_model o cfg k v env hE id sz s c level hk hl hL (hcnt s.elems rfl)
-        (hret id sz s rfl), Option.map_some]
+    obtain ⟨ha, hr⟩ := hret id sz s rfl
+    simp only [mei_cEl, element_Set,
+      externalCollisionGroup_Set_eq_model_on o cfg k v env hE id sz s c level hk cfg.addr b hl hL ha hr hset
+        (hQ s.elems (Or.inl rfl)),
+      Option.map_some]
 
 /-- `element.Set` (dispatch) = `MElemF.set`, for every element: Go results and storage state -/
 theorem element_Set_eq_model (hE : EnvB o cfg k v env) (el : MElemF α) (c : Ctx) (level : Nat) (hk : UInt64) (b : Unit)
@@ -74,22 +147,8 @@ theorem element_Set_eq_model (hE : EnvB o cfg k v env) (el : MElemF α) (c : Ctx
       | none => (none, none, none, .dataSlab d, c)) :
     (element_Set env (mei_cEl el) c cfg.addr b k (u64 level) hk (.key k) (.val v)).map
         (fun r => (r.1, r.2.1, r.2.2.1, r.2.2.2.1, r.2.2.2.2.2)) =
-      some (mei_rESet c (el.set o cfg level k v c)) := by
-  cases el with
-  | single x =>
-    obtain ⟨h1, h2, h3⟩ := hsingle x rfl
-    simp only [mei_cEl, element_Set,
-      singleElement_Set_eq_model o cfg k v env hE x c level hk b hl hL hT
-        (fun g ks old g' c' hg => hsz g (Or.inr ⟨x, rfl, hg⟩) ks old g' c') h1 h2 h3, Option.map_some]
-  | inl g =>
-    simp only [mei_cEl, element_Set,
-      inlineCollisionGroup_Set_eq_model o cfg k v env hE g c level hk b hl hL hT (hsz g (Or.inl rfl)),
-      Option.map_some, MElemF.set]
-  | ext id sz s =>
-    obtain ⟨ha, hr⟩ := hret id sz s rfl
-    simp only [mei_cEl, element_Set,
-      externalCollisionGroup_Set_eq_model o cfg k v env hE id sz s c level hk cfg.addr b hl hL ha hr hset,
-      Option.map_some]
+      some (mei_rESet c (el.set o cfg level k v c)) :=
+  element_Set_eq_model_on o cfg k v env hE.toOn el c level hk b hl hL hT hsz hsingle hret hset (fun _ _ => trivial) (fun _ _ => trivial)
 
 end
 end Atree.TransEq
